@@ -210,6 +210,12 @@ def check_day(ctx, day, walk, rng, heavy, mq_all):
             mon['fixed_roundtrip'] += 1
             if back != T:
                 ctx.fail('fixed_roundtrip', "%d%s then %d%s from %s returns %s" % (n, unit, -n, unit, T, back), case=dict(term, n=n, unit=unit))
+        import numpy as np
+        for npn in (np.int64(n), np.int32(n)):
+            mon['fixed_units'] += 1
+            st_, g_ = ctx.call(dt_bump, T, npn)
+            if st_ != 'ok' or g_ != T + DAY * n:
+                ctx.fail('fixed_units', 'dt_bump(%s, %r) = %s %r' % (T, npn, st_, g_), case=dict(term, n=n, unit=type(npn).__name__))
         mon['fixed_units'] += 2
         if dt_bump(T, n) != T + DAY * n:
             ctx.fail('fixed_units', 'dt_bump(%s, %d) = %s' % (T, n, dt_bump(T, n)), case=dict(term, n=n, unit='int'))
